@@ -7,6 +7,7 @@ import (
 	"go/ast"
 	"go/types"
 	"regexp"
+	"sort"
 	"strings"
 
 	"golang.org/x/tools/go/ssa"
@@ -143,17 +144,13 @@ func (f *Frame) doCall(instr ssa.Instruction, c *ssa.CallCommon, args []Value, r
 					if _, isParam := f.paramNames()[nm]; isParam {
 						continue
 					}
-					if pv, ok := f.vals[v]; ok {
-						env.vars[nm] = SpecVal{T: e.valTerm(pv, v.Type()), Typ: v.Type(), V: pv}
-					}
+					f.bindLocal(env, nm, v, f.st, false)
 				}
 				for nm, v := range f.localsBefore(instr) {
 					if _, isParam := f.paramNames()[nm]; isParam {
 						continue
 					}
-					if pv, ok := f.vals[v]; ok {
-						env.vars[nm] = SpecVal{T: e.valTerm(pv, v.Type()), Typ: v.Type(), V: pv}
-					}
+					f.bindLocal(env, nm, v, f.st, false)
 				}
 			}
 			f.bindCallEnv(env, c, args)
@@ -638,6 +635,13 @@ func (f *Frame) havocValue(t Term, typ types.Type, depth int) {
 		switch eu := elem.Underlying().(type) {
 		case *types.Struct:
 			for i := 0; i < eu.NumFields(); i++ {
+				if e.p.isReadonlyField(elem, i) {
+					// not writable outside its constructors (structural obligation); what it points to still is
+					if depth < 1 && refLike(eu.Field(i).Type()) {
+						f.havocTypeHeaps(eu.Field(i).Type(), depth+1)
+					}
+					continue
+				}
 				loc := e.fieldLoc(elem, i, t)
 				fv := e.havoc(loc.heap+"_hv", e.sortOf(eu.Field(i).Type()))
 				e.assumeExisting(f.st, tTrue, fv, eu.Field(i).Type())
@@ -697,7 +701,7 @@ func (f *Frame) havocTypeHeaps(t types.Type, depth int) {
 func (f *Frame) havocAll() {
 	e := f.e
 	for k, v := range f.st.heaps {
-		if strings.HasPrefix(k, "ghost_") || strings.HasPrefix(k, "G_") {
+		if strings.HasPrefix(k, "ghost_") || strings.HasPrefix(k, "G_") || e.readonlyHeaps[k] {
 			continue
 		}
 		f.st.heaps[k] = e.havoc(k+"_hv", v.Sort)
@@ -842,22 +846,43 @@ func (f *Frame) deferInstr(x *ssa.Defer) {
 	for i, a := range c.Args {
 		args[i] = f.val(a)
 	}
-	// inside a loop? then outside the subset
+	inLoop := false
 	for _, li := range f.loops {
 		if li.body[x.Block().Index] {
-			f.e.unsupported = append(f.e.unsupported, "defer inside a loop in "+f.fn.String())
+			inLoop = true
 		}
 	}
-	f.defers = append(f.defers, deferRec{guard: f.guard, call: c, args: args, fnv: f.val(c.Value), instr: x})
+	if inLoop {
+		if _, isClosure := c.Value.(*ssa.MakeClosure); isClosure || c.IsInvoke() {
+			// a deferred closure or interface method registered per iteration: outside the subset
+			f.e.unsupported = append(f.e.unsupported, "deferred closure inside a loop in "+f.fn.String())
+		}
+		f.e.note("defer inside a loop in " + f.fn.String() + ": at function exit the call runs an unknown number of times with unknown arguments (its effects are havocked)")
+	}
+	f.defers = append(f.defers, deferRec{guard: f.guard, call: c, args: args, fnv: f.val(c.Value), instr: x, inLoop: inLoop})
 }
 
 func (f *Frame) runDefers(x *ssa.RunDefers) {
 	e := f.e
+	f.inDefers++
+	defer func() { f.inDefers-- }()
 	for i := len(f.defers) - 1; i >= 0; i-- {
 		d := f.defers[i]
 		// execute under (current guard ∧ defer was registered); merge with the state that skips it
 		saveG, saveS := f.guard, f.st.clone()
-		g := e.defineBool(f.name("dg"), and(f.guard, d.guard))
+		dguard := d.guard
+		args := d.args
+		if d.inLoop {
+			// The body of a loop is encoded once, for an arbitrary iteration: whether and how often the defer was
+			// registered is not known at exit. Run it once under a free condition with free arguments (so that its
+			// call-site obligations are checked for any registration), then havoc everything it may write.
+			dguard = e.havoc(f.name("dloop"), SBool)
+			args = make([]Value, len(d.call.Args))
+			for k, a := range d.call.Args {
+				args[k] = f.havocTyped(f.name(fmt.Sprintf("dlooparg%d", k)), a.Type())
+			}
+		}
+		g := e.defineBool(f.name("dg"), and(f.guard, dguard))
 		if g.isC && g.c == 0 {
 			continue
 		}
@@ -866,10 +891,33 @@ func (f *Frame) runDefers(x *ssa.RunDefers) {
 		if d.call.Signature().Results().Len() == 1 {
 			rt = d.call.Signature().Results().At(0).Type()
 		}
-		f.doCall(d.instr, d.call, d.args, rt, d.fnv)
+		f.doCall(d.instr, d.call, args, rt, d.fnv)
+		if d.inLoop {
+			eff := newEffects()
+			f.callEffects(d.call, eff, map[*ssa.Function]bool{}, 0)
+			if eff.all {
+				for k := range f.st.heaps {
+					eff.names[k] = f.st.heaps[k].Sort
+				}
+			}
+			var names []string
+			for k := range eff.names {
+				names = append(names, k)
+			}
+			sort.Strings(names)
+			for _, k := range names {
+				if strings.HasPrefix(k, "ghost_") {
+					continue
+				}
+				if e.readonlyHeaps[k] {
+					continue
+				}
+				f.st.heaps[k] = e.havoc(k+"@deferloop", eff.names[k])
+			}
+		}
 		after := f.st
 		afterG := f.guard
-		skip := e.defineBool(f.name("ds"), and(saveG, not(d.guard)))
+		skip := e.defineBool(f.name("ds"), and(saveG, not(dguard)))
 		f.st = e.mergeStates(f.name("defer"), []Term{afterG, skip}, []*State{after, saveS})
 		f.guard = e.defineBool(f.name("dj"), or(afterG, skip))
 	}
